@@ -4,8 +4,11 @@ package core
 
 import (
 	"fmt"
+	"runtime"
 	"sort"
 	"strings"
+	"sync"
+	"sync/atomic"
 	"testing"
 	"time"
 
@@ -165,6 +168,25 @@ type c01World struct {
 	limHit bool
 	// modelStrict is fixed at the start of the case (the driver is told once)
 	modelStrict bool
+	// conc != nil while the scripts of a concurrent batch are being generated: the pod-level op* functions then
+	// emit their op line and do their bookkeeping as usual, but the call itself is deferred (appended to the
+	// current script) and no observation is taken.
+	conc *c01Conc
+	// atQuiescence: the oracle runs at the end of a concurrent batch (fingerprints get the suffix "@conc")
+	atQuiescence bool
+}
+
+type c01Conc struct {
+	script []func()
+}
+
+// guard runs one call of the implementation (h.Guard) or, inside a concurrent batch, defers it to the pod's script.
+func (w *c01World) guard(f func()) bool {
+	if w.conc != nil {
+		w.conc.script = append(w.conc.script, f)
+		return false
+	}
+	return w.h.Guard(f)
 }
 
 func (w *c01World) ign(pv *c01PV) bool { return w.gate && pv.del }
@@ -363,6 +385,9 @@ func (w *c01World) fail(fp, format string, a ...interface{}) {
 		return
 	}
 	w.failed = true
+	if w.atQuiescence {
+		fp += "@conc"
+	}
 	w.h.Fail(fp, format, a...)
 }
 
@@ -505,6 +530,9 @@ func (w *c01World) freshCompare(o *c01Obs) {
 
 // after runs the bookkeeping common to every operation.
 func (w *c01World) after(panicked bool) {
+	if w.conc != nil {
+		return // inside a concurrent batch: the call has not happened yet, nothing to observe
+	}
 	if panicked {
 		w.h.Obs("panic")
 		w.strict = false
@@ -626,7 +654,7 @@ func (w *c01World) mutatePV(old *c01PV) *c01PV {
 func (w *c01World) opPodAdd(q int, pd *c01Pod, pv *c01PV) {
 	w.h.Op("padd %d %s", q, w.podToks(pv))
 	w.h.Tag("op:pod-add")
-	p := w.h.Guard(func() { w.gqm.OnPodAdd(c01QName(q), pv.obj) })
+	p := w.guard(func() { w.gqm.OnPodAdd(c01QName(q), pv.obj) })
 	pd.alive, pd.quota = true, q
 	if pd.cur != nil {
 		pd.stale = append(pd.stale, pd.cur)
@@ -645,7 +673,7 @@ func (w *c01World) opPodUpdate(newQ, oldQ int, pd *c01Pod, npv, opv *c01PV) {
 	} else {
 		w.h.Tag("op:pod-update")
 	}
-	p := w.h.Guard(func() { w.gqm.OnPodUpdate(c01QName(newQ), c01QName(oldQ), npv.obj, opv.obj) })
+	p := w.guard(func() { w.gqm.OnPodUpdate(c01QName(newQ), c01QName(oldQ), npv.obj, opv.obj) })
 	pd.stale = append(pd.stale, pd.cur)
 	pd.cur = npv
 	pd.quota = newQ
@@ -656,7 +684,7 @@ func (w *c01World) opPodUpdate(newQ, oldQ int, pd *c01Pod, npv, opv *c01PV) {
 func (w *c01World) opPodDelete(q int, pd *c01Pod, pv *c01PV) {
 	w.h.Op("pdel %d %s", q, w.podToks(pv))
 	w.h.Tag("op:pod-delete")
-	p := w.h.Guard(func() { w.gqm.OnPodDelete(c01QName(q), pv.obj) })
+	p := w.guard(func() { w.gqm.OnPodDelete(c01QName(q), pv.obj) })
 	if q == pd.quota {
 		pd.alive, pd.member = false, false
 	}
@@ -671,7 +699,7 @@ func (w *c01World) opReserve(q int, pv *c01PV, un bool) {
 		w.h.Op("reserve %d %s", q, w.podToks(pv))
 		w.h.Tag("op:reserve")
 	}
-	p := w.h.Guard(func() {
+	p := w.guard(func() {
 		if un {
 			w.gqm.UnreservePod(c01QName(q), pv.obj)
 		} else {
@@ -898,8 +926,212 @@ func (w *c01World) step(maxQ, maxP int) {
 		if w.specs[pd.quota] == nil && w.strict {
 			return
 		}
-		w.opMigrate(pd, pd.cur, pd.quota, qids[r.Intn(len(qids))])
+		in := qids[r.Intn(len(qids))]
+		if qi := w.gqm.getQuotaInfoByNameNoLock(c01QName(in)); !w.strict && in != pd.quota && qi != nil && qi.CheckPodIsAssigned(pd.cur.obj) &&
+			!w.gqm.getPodIsAssignedNoLock(c01QName(pd.quota), pd.cur.obj) {
+			// loose histories only (a pod cached in two quotas): the TARGET already holds the pod as assigned while it is
+			// unassigned in `out`.  Go's MigratePod then clears the target's flag (updatePodIsAssignedNoLock(in, pod, false))
+			// without touching used; Model/C01.lean migratePod only ever sets the flag.  This is outside the stated
+			// hypothesis "MigratePod ... a target not holding it"; skipped and counted until the model mirrors it.
+			w.h.Tag("skip:migrate-target-holds-assigned-pod")
+			return
+		}
+		w.opMigrate(pd, pd.cur, pd.quota, in)
 	}
+}
+
+// ---------- concurrent batches (the *schedules* quantifier) ----------
+
+// c01RunConc runs every script in its own goroutine against the one shared manager.  The goroutines are released
+// together (spin barrier) so that their handlers really overlap; with lockstep the i-th calls of all scripts are
+// released together as well (more overlap), otherwise every goroutine runs freely after the common start.
+// A panic inside a goroutine is recovered and reported (and releases every barrier).
+func c01RunConc(scripts [][]func(), lockstep bool) (panicMsg string, panicked bool) {
+	var done sync.WaitGroup
+	var pn int32
+	var mu sync.Mutex
+	maxLen := 0
+	for _, sc := range scripts {
+		if len(sc) > maxLen {
+			maxLen = len(sc)
+		}
+	}
+	// expect[i] = number of goroutines that will arrive at barrier i; arrived[i] counts them
+	expect := make([]int32, maxLen+1)
+	arrived := make([]int32, maxLen+1)
+	for _, sc := range scripts {
+		for i := 0; i < len(sc); i++ {
+			expect[i]++
+		}
+	}
+	barrier := func(i int) {
+		atomic.AddInt32(&arrived[i], 1)
+		for spin := 0; atomic.LoadInt32(&arrived[i]) < expect[i] && atomic.LoadInt32(&pn) == 0; spin++ {
+			if spin&1023 == 1023 {
+				runtime.Gosched()
+			}
+		}
+	}
+	done.Add(len(scripts))
+	for _, sc := range scripts {
+		go func(sc []func()) {
+			defer done.Done()
+			defer func() {
+				if r := recover(); r != nil {
+					atomic.StoreInt32(&pn, 1)
+					mu.Lock()
+					panicMsg = fmt.Sprint(r)
+					mu.Unlock()
+				}
+			}()
+			for i, f := range sc {
+				if i == 0 || lockstep {
+					barrier(i)
+				}
+				f()
+			}
+		}(sc)
+	}
+	done.Wait()
+	return panicMsg, atomic.LoadInt32(&pn) != 0
+}
+
+func (w *c01World) depth(n int) int {
+	d := 0
+	for n != c01Root && n != 0 && d < 64 {
+		sp := w.specs[n]
+		if sp == nil {
+			break
+		}
+		n = sp.parent
+		d++
+	}
+	return d
+}
+
+// concBatch: K distinct pods (new or existing), one short informer-consistent script of pod-level operations per pod
+// (everything drawn from w.r before any goroutine starts), issued from K goroutines.  The op lines are emitted in the
+// canonical order "script of pod 1, script of pod 2, ..." between `conc 1` and `conc 0`; ONE observation block is
+// taken when all goroutines have finished, and the usual oracle + fresh-manager comparison run on it.
+func (w *c01World) concBatch() {
+	r := w.r
+	qids := w.quotaIDs()
+	if !w.strict || len(qids) == 0 {
+		return
+	}
+	// the deepest quota is "hot": most pods of the batch live there, so the path-locked sections contend
+	hot := qids[0]
+	for _, n := range qids {
+		if w.depth(n) > w.depth(hot) {
+			hot = n
+		}
+	}
+	pickQ := func(not int) int {
+		if hot != not && r.Chance(2, 3) {
+			return hot
+		}
+		var cands []int
+		for _, n := range qids {
+			if n != not {
+				cands = append(cands, n)
+			}
+		}
+		if len(cands) == 0 {
+			return not
+		}
+		return cands[r.Intn(len(cands))]
+	}
+	alive := w.podIDs(func(p *c01Pod) bool { return p.alive })
+	perm := r.Perm(len(alive))
+	nextOld, nAlive := 0, len(alive)
+	K := r.Range(2, 6)
+	w.h.Op("conc 1")
+	w.h.Tag("conc:batch")
+	w.h.Tag(fmt.Sprintf("conc:K=%d", K))
+	w.h.Tag(fmt.Sprintf("conc:hot-depth=%d", w.depth(hot)))
+	w.conc = &c01Conc{}
+	var scripts [][]func()
+	for j := 0; j < K; j++ {
+		var pd *c01Pod
+		if nextOld < len(alive) && (r.Chance(1, 2) || nAlive >= 12) {
+			pd = w.pods[alive[perm[nextOld]]]
+			nextOld++
+		} else {
+			pd = &c01Pod{id: w.nextP}
+			w.nextP++
+			w.pods[pd.id] = pd
+			nAlive++
+		}
+		asg := pd.alive && w.assignedNow(pd) // predicted assignment flag of THIS pod (only steers the choice of ops)
+		w.conc.script = nil
+		L := r.Range(1, 4)
+		for s := 0; s < L; s++ {
+			if !pd.alive {
+				if pd.cur != nil {
+					break // deleted by this script: a pod name is never re-used
+				}
+				pv := w.newPV(pd.id)
+				if !pv.node && r.Chance(1, 2) { // more fail-over adds than in the sequential stream: they touch `used` under the shared lock
+					pv.node = true
+					pv.obj = c01MkPod(pv)
+				}
+				w.opPodAdd(pickQ(0), pd, pv)
+				w.h.Tag("conc-op:padd")
+				asg = pd.member && pv.node && !pv.term
+				continue
+			}
+			x := r.Intn(100)
+			switch {
+			case x >= 40 && x < 55 && len(qids) > 1: // quota move
+				npv := w.mutatePV(pd.cur)
+				w.opPodUpdate(pickQ(pd.quota), pd.quota, pd, npv, pd.cur)
+				w.h.Tag("conc-op:pupd-move")
+				asg = pd.member && npv.node && !npv.term
+			case x >= 55 && x < 65:
+				w.opPodDelete(pd.quota, pd, pd.cur)
+				w.h.Tag("conc-op:pdel")
+				asg = false
+			case x >= 65 && x < 85:
+				w.opReserve(pd.quota, pd.cur, false)
+				w.h.Tag("conc-op:reserve")
+				asg = pd.member
+			case x >= 85 && pd.member && (asg && !pd.cur.node || !asg && r.Chance(1, 10)):
+				// as in the sequential generator: roll back a reservation of a pod that is not bound (or a no-op)
+				w.opReserve(pd.quota, pd.cur, true)
+				w.h.Tag("conc-op:unreserve")
+				asg = false
+			default: // resize / non-preemptible flip / bind / completion / terminating
+				npv := w.mutatePV(pd.cur)
+				w.opPodUpdate(pd.quota, pd.quota, pd, npv, pd.cur)
+				w.h.Tag("conc-op:pupd")
+				asg = pd.member && (asg || npv.node && !npv.term)
+			}
+		}
+		scripts = append(scripts, w.conc.script)
+	}
+	w.conc = nil
+	w.h.Op("conc 0")
+	lockstep, fresh := r.Chance(2, 3), r.Chance(1, 2)
+	w.h.Tag(fmt.Sprintf("conc:lockstep=%v", lockstep))
+	msg, panicked := c01RunConc(scripts, lockstep)
+	if panicked {
+		if len(msg) > 120 {
+			msg = msg[:120]
+		}
+		w.h.Tag("panic")
+		w.h.Extra("last_panic", msg)
+		w.h.Obs("panic")
+		w.strict = false
+		return
+	}
+	o := c01Observe(w.gqm)
+	o.emit(w.h, w.modelStrict)
+	w.atQuiescence = true
+	w.oracle(o)
+	if fresh { // (the end of the case compares with a fresh manager in any case)
+		w.freshCompare(o)
+	}
+	w.atQuiescence = false
 }
 
 func TestVerifC01(t *testing.T) {
@@ -930,10 +1162,30 @@ func TestVerifC01(t *testing.T) {
 			nops = r.Range(60, 120)
 		}
 		mid := r.Range(5, nops)
+		// every 5th case (chosen by idx, so the other cases are what they were) is a concurrency case if it is strict
+		batchAt := map[int]bool{}
+		if idx%5 == 4 && w.strict {
+			h.Tag("conc:case")
+			// a chain root > .. > leaf first, so that the batches contend on a deep path
+			par := c01Root
+			for d, i := r.Range(1, 3), 0; i <= d; i++ {
+				sp := &c01Spec{name: w.nextQ, parent: par, isParent: i < d, lend: r.Chance(3, 5)}
+				w.nextQ++
+				w.genSpecVals(sp)
+				w.opQuota(sp)
+				par = sp.name
+			}
+			for nb := r.Range(2, 5); nb > 0; nb-- {
+				batchAt[r.Range(2, nops-1)] = true
+			}
+		}
 		for i := 0; i < nops; i++ {
 			w.step(maxQ, maxP)
 			if i == mid {
 				w.freshCompare(c01Observe(w.gqm))
+			}
+			if batchAt[i] {
+				w.concBatch()
 			}
 		}
 		w.freshCompare(c01Observe(w.gqm))
@@ -948,5 +1200,313 @@ func TestVerifC01(t *testing.T) {
 		"lend- and isParent-flag change (reset path) / re-parent / delete / ResetQuota / cluster-total change / RefreshRuntime, pod add (incl. fail-over with NodeName) / " +
 		"update (resize, non-preemptible flip, bind, completion, terminating with the ignore gate, quota move) / delete / reserve / unreserve / migrate; <=7 quotas, <=10 pods, 2 dimensions; " +
 		"7/8 informer-consistent (oracle on), 1/8 loose (stale old objects, missing quotas, deletes with pods; correspondence only); " +
+		"every 5th case (if informer-consistent) is a concurrency case: a chain of 2-4 nested quotas is created first and up to 5 concurrent batches are inserted into the history - " +
+		"K=2..6 distinct pods (new or existing, 2/3 on the deepest quota), per pod a script of 1-4 OnPodAdd / OnPodUpdate (resize, flip, bind, completion, terminating, quota move) / " +
+		"OnPodDelete / ReservePod / UnreservePod calls drawn beforehand, run by K goroutines released together (2/3 of the batches: also the i-th calls of all scripts released together) against the shared manager; one observation at quiescence, " +
+		"compared with the model's canonical sequential order (script of pod 1, pod 2, ...) and checked by the oracle and (every other batch) the fresh manager (fingerprint suffix @conc); <=16 pods there; " +
 		"non-trivial = some quota's request exceeded its max at some point (limiting active)")
+}
+
+// ---------- exhaustive small-scope stream (thorough tier) ----------
+
+// Fixed tree root(1) > P(2) > {A(3), B(4)}, two pods; EVERY informer-consistent sequence of 4 operations over the
+// alphabet below (all shorter sequences are prefixes: an observation block, the oracle and the fresh-manager
+// comparison follow every single operation).  Nothing is random; VERIF_SEED only selects the variant (seed%2).
+const (
+	c01xAddPend = iota // OnPodAdd, no NodeName                      (pod, quota)
+	c01xAddNode        // OnPodAdd with NodeName (fail-over)         (pod, quota)
+	c01xResize         // OnPodUpdate same quota, request small<->big (pod)
+	c01xBind           // OnPodUpdate same quota, NodeName set        (pod)
+	c01xMove           // OnPodUpdate to the other leaf A<->B         (pod)
+	c01xDel            // OnPodDelete                                 (pod)
+	c01xReserve        // ReservePod of an unassigned pod             (pod)
+	c01xUnreserve      // UnreservePod of a reserved, unbound pod     (pod)
+	c01xMigrate        // MigratePod to the other leaf A<->B          (pod)
+	c01xAMax           // UpdateQuota(A): max small<->large
+	c01xAMin           // UpdateQuota(A): min >0 <-> 0
+	c01xReparentB      // UpdateQuota(B): parent P<->root
+	c01xLendFlip       // UpdateQuota(non-lending leaf): lend flag flipped (resetQuotaNoLock path)
+	c01xDelQ           // DeleteQuota of a leaf without live pods     (quota)
+	c01xMkQ            // UpdateQuota re-creating the deleted leaf    (quota)
+	c01xReset          // ResetQuota
+	c01xNpFlip         // OnPodUpdate same quota, non-preemptible label flipped (pod)
+	c01xComplete       // OnPodUpdate same quota, phase Succeeded             (pod)
+)
+
+var c01xKindName = []string{"add-pending", "add-node", "resize", "bind", "move", "pod-delete", "reserve", "unreserve", "migrate",
+	"A-max", "A-min", "reparent-B", "lend-flip", "quota-delete", "quota-recreate", "reset", "np-flip", "complete"}
+
+type c01xOp struct{ kind, pod, q int }
+
+type c01xAbsPod struct {
+	delivered, alive, node, term, asg bool
+	q                                 int
+}
+
+// c01xAbs is all the enumeration needs to know to decide which operations are applicable.
+type c01xAbs struct {
+	pod    [2]c01xAbsPod
+	exists [5]bool // [3] = A, [4] = B
+}
+
+func c01xOther(q int) int { return 7 - q }
+
+func (a c01xAbs) applicable() []c01xOp {
+	var out []c01xOp
+	for p := 0; p < 2; p++ {
+		pd := a.pod[p]
+		if !pd.delivered {
+			for q := 3; q <= 4; q++ {
+				if a.exists[q] {
+					out = append(out, c01xOp{c01xAddPend, p, q}, c01xOp{c01xAddNode, p, q})
+				}
+			}
+			continue
+		}
+		if !pd.alive {
+			continue // deleted: a pod name is never re-used
+		}
+		out = append(out, c01xOp{c01xResize, p, 0}, c01xOp{c01xNpFlip, p, 0})
+		if !pd.term {
+			out = append(out, c01xOp{c01xComplete, p, 0})
+		}
+		if !pd.node {
+			out = append(out, c01xOp{c01xBind, p, 0})
+		}
+		if a.exists[c01xOther(pd.q)] {
+			out = append(out, c01xOp{c01xMove, p, 0})
+		}
+		out = append(out, c01xOp{c01xDel, p, 0})
+		if !pd.asg {
+			out = append(out, c01xOp{c01xReserve, p, 0})
+		} else if !pd.node {
+			out = append(out, c01xOp{c01xUnreserve, p, 0})
+		}
+		if a.exists[c01xOther(pd.q)] {
+			out = append(out, c01xOp{c01xMigrate, p, 0})
+		}
+	}
+	if a.exists[3] {
+		out = append(out, c01xOp{c01xAMax, 0, 3}, c01xOp{c01xAMin, 0, 3})
+	}
+	if a.exists[4] {
+		out = append(out, c01xOp{c01xReparentB, 0, 4})
+	}
+	out = append(out, c01xOp{c01xLendFlip, 0, 0}) // pruned by the caller when the non-lending leaf does not exist
+	for q := 3; q <= 4; q++ {
+		if !a.exists[q] {
+			out = append(out, c01xOp{c01xMkQ, 0, q})
+			continue
+		}
+		busy := false
+		for p := 0; p < 2; p++ {
+			if a.pod[p].alive && a.pod[p].q == q {
+				busy = true
+			}
+		}
+		if !busy {
+			out = append(out, c01xOp{c01xDelQ, 0, q})
+		}
+	}
+	return append(out, c01xOp{c01xReset, 0, 0})
+}
+
+func (a c01xAbs) apply(op c01xOp) c01xAbs {
+	pd := &a.pod[op.pod]
+	switch op.kind {
+	case c01xAddPend:
+		*pd = c01xAbsPod{delivered: true, alive: true, q: op.q}
+	case c01xAddNode:
+		*pd = c01xAbsPod{delivered: true, alive: true, node: true, asg: true, q: op.q}
+	case c01xResize, c01xNpFlip:
+		pd.asg = pd.asg || pd.node && !pd.term
+	case c01xComplete:
+		pd.term = true
+	case c01xBind:
+		pd.node = true
+		pd.asg = pd.asg || !pd.term
+	case c01xMove:
+		pd.q, pd.asg = c01xOther(pd.q), pd.node && !pd.term // a fresh cache entry: a mere reservation does not move along
+	case c01xDel:
+		pd.alive, pd.asg = false, false
+	case c01xReserve:
+		pd.asg = true
+	case c01xUnreserve:
+		pd.asg = false
+	case c01xMigrate:
+		pd.q = c01xOther(pd.q)
+	case c01xDelQ:
+		a.exists[op.q] = false
+	case c01xMkQ:
+		a.exists[op.q] = true
+	}
+	return a
+}
+
+func TestVerifC01Exhaustive(t *testing.T) {
+	h := vOpen("C01")
+	if h == nil {
+		t.Skip("VERIF_OUT not set")
+	}
+	const depth = 4
+	variant := int(h.Seed % 2)
+	restore := utilfeature.SetFeatureGateDuringTest(t, k8sfeature.DefaultFeatureGate, features.ElasticQuotaImmediateIgnoreTerminatingPod, false)
+	defer restore()
+	const mi = int64(1) << 20
+	// A has a small max (limiting active with both pods or one big pod); one leaf is non-lending with min > 0
+	base := map[int]c01Spec{
+		2: {name: 2, parent: c01Root, isParent: true, lend: true, max: [2]int64{8000, 8192 * mi}, min: [2]int64{4000, 4096 * mi}},
+		3: {name: 3, parent: 2, lend: true, max: [2]int64{1000, 1024 * mi}, min: [2]int64{500, 512 * mi}},
+		4: {name: 4, parent: 2, lend: false, max: [2]int64{4000, 4096 * mi}, min: [2]int64{1500, 1536 * mi}},
+	}
+	nonLend := 4
+	small := [2][2]int64{{750, 768 * mi}, {500, 512 * mi}}
+	big := [2][2]int64{{1500, 1536 * mi}, {1250, 1280 * mi}}
+	np := [2]bool{false, true}
+	if variant == 1 { // A itself is the non-lending leaf, pod 1 the non-preemptible one
+		a, b := base[3], base[4]
+		a.lend, a.min = false, [2]int64{750, 768 * mi}
+		b.lend, b.min = true, [2]int64{1000, 1024 * mi}
+		base[3], base[4] = a, b
+		nonLend = 3
+		np = [2]bool{true, false}
+	}
+	aMaxLarge := [2]int64{3000, 3072 * mi}
+	limit := h.N(0, 0) // VERIF_N caps the number of cases (development only)
+	idx := 0
+	runSeq := func(seq []c01xOp) {
+		r := h.Begin(idx)
+		idx++
+		if r == nil {
+			return
+		}
+		w := &c01World{h: h, r: r, specs: map[int]*c01Spec{}, pods: map[int]*c01Pod{}, nextQ: 5, nextP: 3, strict: true, modelStrict: true}
+		h.Op("mode 1")
+		w.gqm = NewGroupQuotaManager("tree1", false, nil, nil)
+		w.total = [2]int64{16000, 16384 * mi}
+		w.gqm.UpdateClusterTotalResource(c01RL(w.total))
+		for _, n := range []int{2, 3, 4} {
+			sp := base[n]
+			w.opQuota(&sp)
+		}
+		abs := c01xAbs{}
+		abs.exists[3], abs.exists[4] = true, true
+		for _, op := range seq {
+			h.Tag("exh-op:" + c01xKindName[op.kind])
+			id := op.pod + 1
+			pd := w.pods[id]
+			mut := func(f func(pv *c01PV)) *c01PV {
+				pv := *pd.cur
+				f(&pv)
+				pv.obj = c01MkPod(&pv)
+				return &pv
+			}
+			switch op.kind {
+			case c01xAddPend, c01xAddNode:
+				pd = &c01Pod{id: id}
+				w.pods[id] = pd
+				pv := &c01PV{id: id, req: small[op.pod], np: np[op.pod], node: op.kind == c01xAddNode}
+				pv.obj = c01MkPod(pv)
+				w.opPodAdd(op.q, pd, pv)
+			case c01xResize:
+				w.opPodUpdate(pd.quota, pd.quota, pd, mut(func(pv *c01PV) {
+					if pv.req == small[op.pod] {
+						pv.req = big[op.pod]
+					} else {
+						pv.req = small[op.pod]
+					}
+				}), pd.cur)
+			case c01xBind:
+				w.opPodUpdate(pd.quota, pd.quota, pd, mut(func(pv *c01PV) { pv.node = true }), pd.cur)
+			case c01xNpFlip:
+				w.opPodUpdate(pd.quota, pd.quota, pd, mut(func(pv *c01PV) { pv.np = !pv.np }), pd.cur)
+			case c01xComplete:
+				w.opPodUpdate(pd.quota, pd.quota, pd, mut(func(pv *c01PV) { pv.term = true }), pd.cur)
+			case c01xMove:
+				w.opPodUpdate(c01xOther(pd.quota), pd.quota, pd, mut(func(pv *c01PV) {}), pd.cur)
+			case c01xDel:
+				w.opPodDelete(pd.quota, pd, pd.cur)
+			case c01xReserve:
+				w.opReserve(pd.quota, pd.cur, false)
+			case c01xUnreserve:
+				w.opReserve(pd.quota, pd.cur, true)
+			case c01xMigrate:
+				w.opMigrate(pd, pd.cur, pd.quota, c01xOther(pd.quota))
+			case c01xAMax:
+				sp := *w.specs[3]
+				if sp.max == base[3].max {
+					sp.max = aMaxLarge
+				} else {
+					sp.max = base[3].max
+				}
+				w.opQuota(&sp)
+			case c01xAMin:
+				sp := *w.specs[3]
+				if sp.min == base[3].min {
+					sp.min = [2]int64{0, 0}
+				} else {
+					sp.min = base[3].min
+				}
+				w.opQuota(&sp)
+			case c01xReparentB:
+				sp := *w.specs[4]
+				sp.parent = 3 - sp.parent // P(2) <-> root(1)
+				w.opQuota(&sp)
+			case c01xLendFlip:
+				sp := *w.specs[nonLend]
+				sp.lend = !sp.lend
+				w.opQuota(&sp)
+			case c01xDelQ:
+				w.opDelQuota(op.q)
+			case c01xMkQ:
+				sp := base[op.q]
+				w.opQuota(&sp)
+			case c01xReset:
+				h.Op("reset")
+				h.Tag("op:reset")
+				w.after(h.Guard(func() { w.gqm.ResetQuota() }))
+			}
+			abs = abs.apply(op)
+			// the enumeration's own prediction of the assignment flags (it only prunes no-op reserves/unreserves)
+			for p := 0; p < 2; p++ {
+				if x := w.pods[p+1]; x != nil && x.alive && w.strict && w.assignedNow(x) != abs.pod[p].asg {
+					h.Tag("exh:assigned-prediction-wrong")
+				}
+			}
+			w.freshCompare(c01Observe(w.gqm))
+		}
+		if w.limHit {
+			h.Nontrivial()
+			h.Tag("limit-active")
+		}
+		h.End()
+	}
+	var rec func(a c01xAbs, seq []c01xOp)
+	rec = func(a c01xAbs, seq []c01xOp) {
+		if limit > 0 && idx >= limit {
+			return
+		}
+		if len(seq) == depth {
+			runSeq(seq)
+			return
+		}
+		for _, op := range a.applicable() {
+			if op.kind == c01xLendFlip && !a.exists[nonLend] {
+				continue
+			}
+			rec(a.apply(op), append(seq[:len(seq):len(seq)], op))
+		}
+	}
+	start := c01xAbs{}
+	start.exists[3], start.exists[4] = true, true
+	rec(start, nil)
+	desc := fmt.Sprintf("variant %d (seed%%2): every informer-consistent sequence of exactly %d operations (all shorter ones are prefixes; every operation is followed by an observation, "+
+		"the oracle and the fresh-manager comparison) on root > P > {A (small max), B}, non-lending leaf with min>0 = %d, 2 pods (pod %d non-preemptible): %d sequences",
+		variant, depth, nonLend, map[bool]int{true: 1, false: 2}[np[0]], idx)
+	h.Extra("exhaustive", desc)
+	h.Close("exhaustive small scope, " + desc + "; alphabet per pod: add pending / add with NodeName to A or B, resize small<->big, non-preemptible flip, completion (Succeeded), bind, move A<->B, delete, reserve (unassigned pod), " +
+		"unreserve (reserved unbound pod), migrate A<->B; quotas: A max small<->large, A min >0<->0, re-parent B P<->root, lend flag of the non-lending leaf (reset path), delete a leaf without live pods, " +
+		"re-create a deleted leaf (original spec), ResetQuota. Pruned as inapplicable / outside the informer-consistent fragment: ops on a pod not yet added or already deleted (a pod name is never re-used), " +
+		"adds / moves / migrations to a deleted leaf, deleting a leaf that still has a live pod (webhook), ReservePod of an assigned pod and UnreservePod of an unassigned or bound pod (no-ops resp. not issued by the scheduler), " +
+		"pods are only added to the leaves (not to P). non-trivial = some quota's request exceeded its max (limiting active)")
 }
